@@ -1030,7 +1030,7 @@ def mesen_header_rule(run, R="MPT"):
     """Mesen label offsets: the 16-byte header is subtracted from the label's complete file offset (address - bank start +
     bank output offset), never from a partial sum: a bank may start inside the header while its labels lie beyond it."""
     prog = run.prog
-    fs = [f for f in prog.real_fns() if "format_mesen_mlb" in (f.raw.get("root") or f.id)]
+    fs = _mesen_family(prog)
     if not fs:
         run.violation(R, R + "|mesen-header|anchor", "-", "mechanism not found: format_mesen_mlb")
         return
@@ -1782,21 +1782,54 @@ def bool_field_value_used(run, R="MPT"):
               "AstFields::extract_as_bool answers only constants (%s): the value written for a flag is ignored, so `#bankdef a { ..., fill = false }` switches filling ON" % pays)
 
 
+def _mesen_family(prog):
+    """format_mesen_mlb, its closures, and the private functions of the symbol formatter module they call (with their closures)"""
+    fam = [f for f in prog.real_fns() if "format_mesen_mlb" in (f.raw.get("root") or f.id)]
+    seen = {f.id for f in fam}
+    work = list(fam)
+    while work:
+        g = work.pop()
+        for bi, t in g.calls():
+            h = prog.fn(t.get("resolved") or "")
+            if h is not None and h.id.startswith("util::symbol_format::") and h.id not in seen and "format_recursive" not in h.id and not h.id.endswith("::format"):
+                for x in prog.real_fns():
+                    if (x.raw.get("root") or x.id) == h.id and x.id not in seen:
+                        seen.add(x.id)
+                        fam.append(x)
+                        work.append(x)
+    return fam
+
+
 def mesen_units_scaled(run, R="MPT"):
     """Mesen offsets are byte offsets into the file: the distance of a label from its bank's start, which is counted in the bank's
     address units, is multiplied by the unit's width before it is added to the bank's byte offset"""
-    cl = [g for g in run.prog.real_fns() if g.kind == "Closure" and "format_mesen_mlb" in g.id]
+    cl = _mesen_family(run.prog)
     ok = False
+    split = []
     for g in cl:
         for bi, t in g.calls():
             c = t.get("callee") or ""
-            if re.search(r"<impl usize>::(checked_mul|saturating_mul)$", c) and any(".addr_unit" in _deep(g, a, 5) for a in t["args"]):
+            if re.search(r"<impl usize>::(checked_mul|saturating_mul)$", c) and any("addr_unit" in _deep(g, a, 5) for a in t["args"]):
                 ok = True
-        for h in run.prog.real_fns():
-            if h.kind == "Closure" and h.id.startswith(g.id + "::{closure"):
-                for bi, t in h.calls():
-                    c = t.get("callee") or ""
-                    if re.search(r"<impl usize>::(checked_mul|saturating_mul)$", c) and any("addr_unit" in _deep(h, a, 5) for a in t["args"]):
-                        ok = True
+        for bi, si, st in g.stmts():
+            if st["k"] == "assign" and st["rv"]["k"] == "binop" and st["rv"]["op"] == "Mul" and any("addr_unit" in _deep(g, o_, 5) for o_ in (st["rv"]["l"], st["rv"]["r"])):
+                ok = True
+            # the bank's output offset (in bits) divided down to bytes on its own: the sub-byte parts of offset and distance are lost
+            if st["k"] == "assign" and st["rv"]["k"] == "binop" and st["rv"]["op"] in ("Div", "Shr") and re.search(r"output_offset(@Some\.0)?$", _deep(g, st["rv"]["l"], 4)) \
+                    or st["k"] == "assign" and st["rv"]["k"] == "binop" and st["rv"]["op"] in ("Div", "Shr") and _param_is_output_offset(run.prog, g, st["rv"]["l"]):
+                split.append(g.loc(st["span"]))
     run.check(bool(cl) and ok, R, R + "|mesen|units-scaled", cl[0].loc() if cl else "-", "the label's distance from the bank start is scaled by the bank's address unit",
               "format_mesen_mlb adds the distance of a label from its bank's start (in address units) to a byte offset without scaling: in a bank with `#bits 16` the labels at words 0, 1, 2 are listed as P:0, P:1, P:2 although they lie at bytes 0, 2, 4")
+    run.check(bool(cl) and not split, R, R + "|mesen|bits-before-bytes", cl[0].loc() if cl else "-", "the bank's output offset is added in bits, the sum is divided down to bytes",
+              "format_mesen_mlb divides the bank's output offset down to bytes on its own (%s) before adding the label's distance: with a bank of 4-bit units placed at bit 0x84 the label at unit 1 (bit 0x88, byte 0x11) is listed at the offset of byte 0x10" % ", ".join(split))
+
+
+def _param_is_output_offset(prog, g, op):
+    """the operand is a parameter of a helper which every caller fills with the bank's output offset"""
+    e = _deep(g, op, 3)
+    m = re.fullmatch(r"P(\d+)", e)
+    if not m or g.kind == "Closure":
+        return False
+    k = int(m.group(1)) - 1
+    sites = [(h, t) for h in prog.real_fns() for bi, t in h.calls() if (t.get("resolved") or "") == g.id]
+    return bool(sites) and all(k < len(t["args"]) and re.search(r"output_offset(@Some\.0)?$", _deep(h, t["args"][k], 6)) for h, t in sites)
